@@ -2,4 +2,6 @@ pub mod cards;
 pub mod classes;
 #[rustfmt::skip]
 pub mod classes_gen;
+#[rustfmt::skip]
+pub mod consts_gen;
 pub mod ord;
